@@ -74,7 +74,14 @@ type Violation struct {
 func (v *Violation) Signature() string { return v.Property + "/" + v.Oracle + "/" + v.Site }
 
 // World is the whole simulated system.
+// MidCrash asks for a node crash inside the next block.
+type MidCrash struct {
+	Node, Pick int
+	AfterEnd   bool
+}
+
 type World struct {
+	MidCrash *MidCrash
 	Cfg    Config
 	Nodes  []*hub.Node
 	Now    time.Time
